@@ -159,3 +159,27 @@ Proof.
   assert (E : value r == value n + (1 # 2)) by (rewrite Vr, Vh; reflexivity).
   rewrite <- (Qfloor_comp _ _ E). destruct (value r) as [rn rd]. reflexivity.
 Qed.
+
+(* ------------------------------------------------------------------------------------------ *)
+(* divexact after the repair (commit 0dce736): exact for every divisible pair, (INT_MIN,-1) included *)
+
+Theorem fr_divexact_fixed_exact n d zn zd : wf n -> wf d -> value n == zn # 1 -> value d == zd # 1 ->
+  zd <> 0 -> (zd | zn) -> ok_exact (fr_divexact_fixed n d) (zn / zd # 1).
+Proof.
+  intros Hn Hd En Ed Hz Hdiv.
+  assert (Hbig : ok_exact (let nn := Qnum (mpq_of n) in let dd := Qnum (mpq_of d) in
+                           if dd =? 0 then Err Gmp_inexact
+                           else if nn mod dd =? 0 then Ok (of_mpz (nn / dd)) else Err Gmp_inexact) (zn / zd # 1)).
+  { rewrite (int_num n zn), (int_num d zd) by assumption. cbv zeta.
+    destruct (Z.eqb_spec zd 0); [contradiction|].
+    pose proof Hdiv as Hm. apply Z.mod_divide in Hm; [|exact Hz]. rewrite Hm. simpl. apply exact_ok. apply of_mpz_exact. }
+  unfold fr_divexact_fixed. cbv zeta.
+  destruct n as [an ad|qa], d as [bn bd|qb]; try exact Hbig.
+  destruct ((an =? WORD_MIN) && (bn =? -1)) eqn:EX; simpl negb; cbv iota; [exact Hbig|].
+  assert (Hub : ~ (zn = WORD_MIN /\ zd = -1)).
+  { destruct (int_word _ _ _ Hn En) as [-> _]. destruct (int_word _ _ _ Hd Ed) as [-> _]. lia. }
+  exact (fr_divexact_exact_partial (Word an ad) (Word bn bd) zn zd Hn Hd En Ed Hz Hdiv Hub).
+Qed.
+
+Example divexact_fixed_int_min : fr_divexact_fixed (Word WORD_MIN 1) (Word (-1) 1) = Ok (Big (2147483648 # 1)).
+Proof. vm_compute. reflexivity. Qed.
